@@ -390,6 +390,24 @@ def _proc(arg: dict) -> dict:
         return r
 
     sdh.get_root_nodes = gr
+    crash = arg.get("crash")
+    if crash:
+        # non-gating fault (DESIGN 2.4): the process dies at the k-th flush,
+        # either before anything of the batch is committed or between the
+        # commit of the nodes and the commit of their associations
+        target = (SQLDataHolder.batch_insert_node_models
+                  if crash["phase"] == "before"
+                  else SQLDataHolder.batch_insert_node_associations)
+        name = target.__name__
+        calls = [0]
+
+        def dying(self, *a, **k):
+            calls[0] += 1
+            if calls[0] == crash["at"]:
+                os._exit(137)
+            return target(self, *a, **k)
+
+        setattr(SQLDataHolder, name, dying)
     res: dict = {"probes": probes}
     h = SQLDataHolder(SQLDataHolderConfig(
         db_uri=f"sqlite:///{arg['db']}", batch_size=arg["batch_size"],
@@ -477,6 +495,7 @@ def run_processes(scen: dict, db: str) -> list[dict]:
         arg = {"db": db, "batch_size": scen["batch_size"],
                "time_buffer": scen["time_buffer"], "deliver": p["deliver"],
                "pipeline": i == n - 1 and scen.get("pipeline", True),
+               "crash": p.get("crash"),
                "stream_filter": scen.get("stream_filter", {}),
                "filter_names": scen.get("filter_names", [])}
         try:
@@ -487,6 +506,8 @@ def run_processes(scen: dict, db: str) -> list[dict]:
         if st == "ok":
             val["status"] = "ok"
             outs.append(val)
+        elif st == "exit:137" and p.get("crash"):
+            outs.append({"status": "crashed"})
         elif st == "exc":
             outs.append({"status": "exception", "exc": val["exc"],
                          "msg": val["msg"], "tb": val["tb"][-1200:]})
@@ -712,7 +733,60 @@ def _child(unit: dict) -> dict:
         shutil.rmtree(tmp, ignore_errors=True)
 
 
+def _child_crash(unit: dict) -> dict:
+    """Non-gating observation (DESIGN 2.4): an ingest process dies at a seeded
+    flush - before the batch is committed, or between the commit of the
+    nodes and the commit of their associations - and a second process ingests
+    the same stream again.  Reports whether the store then equals the model;
+    never a verdict of C10 (no given property quantifies over crash points
+    inside a run)."""
+    core.silence_child_output()
+    scen = gen_scenario("C10", unit["idx"])
+    stream = [s for p in scen["processes"] for s in p["deliver"]]
+    crash = {"at": unit["at"], "phase": unit["phase"]}
+    hist = {"id": f"C10-crash:{unit['idx']}:{unit['phase']}:{unit['at']}",
+            "batch_size": scen["batch_size"], "time_buffer": 0,
+            "pipeline": False,
+            "processes": [{"deliver": stream, "crash": crash},
+                          {"deliver": stream}]}
+    tmp = tempfile.mkdtemp(prefix="verif-crash-", dir=SHM)
+    try:
+        outs = run_processes(hist, os.path.join(tmp, "a.db"))
+        obs = {"id": hist["id"], "phase": unit["phase"], "at": unit["at"],
+               "batch_size": scen["batch_size"], "n_spans": len(stream),
+               "crashed": bool(outs) and outs[0]["status"] == "crashed",
+               "status": "ok"}
+        if len(outs) < 2 or outs[-1]["status"] != "ok":
+            obs["recovery"] = outs[-1].get("status") + ":" + str(
+                outs[-1].get("exc"))
+            obs["consistent"] = False
+            return obs
+        m = Model()
+        m.deliver(stream)
+        got_n = {r[0] for r in outs[-1]["after_ingest"]["nodes"]}
+        exp_n = {r[0] for r in m.nodes()}
+        got_l = {tuple(x) for x in outs[-1]["after_ingest"]["assoc"]}
+        exp_l = {tuple(x) for x in m.links()}
+        obs["recovery"] = "ok"
+        obs["lost_nodes"] = len(exp_n - got_n)
+        obs["lost_links"] = len(exp_l - got_l)
+        obs["extra_links"] = len(got_l - exp_l)
+        obs["rows_differ"] = outs[-1]["after_ingest"]["nodes"] != m.nodes()
+        obs["consistent"] = not (obs["lost_nodes"] or obs["lost_links"]
+                                 or obs["extra_links"] or obs["rows_differ"])
+        return obs
+    finally:
+        shutil.rmtree(tmp, ignore_errors=True)
+
+
 def run_unit(unit: dict) -> dict:
+    if unit.get("kind") == "crash":
+        try:
+            st, val = core.run_forked(_child_crash, unit, wall_limit=300)
+        except core.ChildTimeout:
+            return {"status": "harness-timeout"}
+        return val if st == "ok" else {"status": "harness-child-" + st,
+                                       "detail": val}
     try:
         st, val = core.run_forked(_child, unit, wall_limit=unit.get("wall",
                                                                     300))
